@@ -17,7 +17,15 @@ RULE = ('the real helpers are called with scripted callables / a scripted interf
         'model: exact call sequence (callable, arguments, outcome) and final result/exception.  The property oracle '
         '(bounds, freshness, erase-before-poll, success iff last status complete, propagation, exhaustion, repeat only '
         'after busy) is evaluated on the real trace of every case.  Distinct by (helper, budget, reservation, sequence, tail); '
-        'non-trivial = at least one call was made.')
+        'non-trivial = at least one call was made.  RECORD-CHUNK FETCHING ABOVE THE CHUNK HELPER: get_repository_sdr / '
+        'get_device_sdr (get_sdr_data_helper over the chunk readers; with and without a caller reservation) and '
+        'sdr_repository_entries / device_sdr_entries on the real Ipmi object against a scripted byte-level device (Reserve '
+        'grants consecutive ids; every Get (Device) SDR consumes one letter: code 0 serves the requested bytes of a 30- and a '
+        '10-byte record, any other letter is answered with its code; alphabet + 0xCA), same exploration (depth 4 / 6, tails, '
+        'seeded longer sequences); compared with the Lean model (Model/SdrXfer.lean on SdrXfer.scriptX, variant probed): '
+        'outcome, returned bytes and every exchange (reservation id, record id, offset, count, code).  Oracle on the real '
+        'trace: every Get carries the id of the most recent Reserve of the operation (the caller\'s before the first), at '
+        'most 161 exchanges per record, unexpected codes propagate, a returned record is the stored one.')
 ASSUMPTIONS = [
     'control flow of helper.get_sdr_chunk_helper/_clear_repository/clear_repository_helper and Ipmi.send_message is modelled by hand '
     '(Model/Retry.lean) and tied by this correspondence run; constants, loop tests and call sites are re-read from the source by '
@@ -26,10 +34,21 @@ ASSUMPTIONS = [
     'an outcome sequence is a finite prefix followed by one letter repeated for ever; the theorems quantify over all of them and all '
     'budgets, the exploration over the prefixes a run can consume',
     'get_sdr_chunk_helper with retry=0 counts below zero and is outside the model (budgets are >= 1)',
+    'record-chunk fetching = the SDR path (get_sdr_chunk_helper, get_sdr_data_helper over _get_sdr_chunk / _get_device_sdr_chunk, '
+    'the entries generators): the mechanisms the property names.  Two SEL loops of the anchor file pyipmi/sel.py are NOT judged '
+    'by this property (audit findings c13/finding_2 and c13/finding_3, recorded as observations): Sel.get_sel_entry lowers '
+    'max_req_len on 0xCA without a lower bound or retry counter (a device answering 0xCA for ever is never given up on), and '
+    'Sel.get_and_clear_sel_entry repeats reserve / get / delete on 0xC5 for ever (no budget, no RetryError).  Neither is '
+    '"repository clearing" or a chunk helper / send_message loop; C08 and C12 model both loops with fuel.',
+    'the scripted SDR device answers a letter with completion code 0 by serving exactly the requested bytes of its records; what '
+    'a real device does about limits and reservations is C11\'s reference device, not this one',
 ]
 TRUSTED = ['harness/translate/loops11.py', 'harness/sim/dev11.py']
 
 ALPHABET = ['C', 'P', 'R', 'T', 'U', 'B', 'O193']
+# exhaustive exploration of the SDR reads: "other error" includes 0xCA, which get_sdr_data_helper adapts to;
+# "in progress" is completion code 0 like "completed" for a Get (the seeded sequences use it)
+ALPHABET_SDR = ['C', 'R', 'T', 'U', 'B', 'O193', 'O202']
 CODE = {'C': 0x00, 'P': 0x00, 'R': 0xC5, 'T': 0xC3, 'U': 0xCE, 'B': 0xC0}
 
 _gen = None
@@ -182,7 +201,80 @@ def run_glue(name, budget, letters, tail):
     return tag, s.trace
 
 
+# ---- record-chunk fetching above the chunk helper: real Ipmi object, scripted byte-level SDR device ----------
+RECP = dev11.make_record(1, 0xC0, bytes(bytearray(range(1, 26))))      # 30 bytes: header, 20, 5
+RECQ = dev11.make_record(2, 0xC0, bytes(bytearray([9, 8, 7, 6, 5])))   # 10 bytes: header, 5
+SDR_RECS = [RECP, RECQ]
+SDR_HELPERS = ('data:r', 'data:d', 'list:r', 'list:d')
+SDR_NETFN = {'r': dev11.NETFN_STORAGE, 'd': dev11.NETFN_SENSOR}
+SDR_GET = {dev11.NETFN_STORAGE: dev11.CMD_GET_SDR, dev11.NETFN_SENSOR: dev11.CMD_GET_DEVICE_SDR}
+SDR_BOUND = 161                 # Lean: data_requests_bounded
+
+
+def _sdr_lookup(rid):
+    ids = [dev11.rec_id(r) for r in SDR_RECS]
+    i = 0 if rid == 0 else (ids.index(rid) if rid in ids else None)
+    if i is None:
+        return None
+    return SDR_RECS[i], (ids[i + 1] if i + 1 < len(ids) else 0xFFFF)
+
+
+def run_sdr(helper, rv, letters, tail):
+    """get_repository_sdr / get_device_sdr (record 1) or the entries generator of store `helper[-1]`."""
+    kind, store = helper.split(':')
+    s = Script(letters, tail, 2 * SDR_BOUND * len(SDR_RECS) + 40)
+    s.last = rv if rv is not None else 0
+
+    def handler(nf, cmd, data):
+        mine = nf == SDR_NETFN[store]
+        if nf in SDR_GET and cmd == dev11.CMD_RESERVE and len(data) == 0:
+            r = s.reserve()
+            if not mine:
+                s.trace[-1] = 'w%d' % r
+            return bytes([0, r & 0xFF, r >> 8])
+        if nf in SDR_GET and cmd == SDR_GET[nf] and len(data) == 6:
+            res, rid, off, cnt = data[0] | data[1] << 8, data[2] | data[3] << 8, data[4], data[5]
+            l = s.next()
+            c = code_of(l)
+            s.trace.append('%s%d:%d:%d:%d:%d' % ('g' if mine else 'h', res, rid, off, cnt, c))
+            if c != 0:
+                return bytes([c])
+            hit = _sdr_lookup(rid)
+            if hit is None:
+                return bytes([0xCB])
+            return bytes([0, hit[1] & 0xFF, hit[1] >> 8]) + hit[0][off:off + cnt]
+        s.trace.append('?')
+        return bytes([0xC1])
+    ipmi, _ = dev11.make_ipmi(handler)
+
+    def op():
+        if kind == 'data':
+            fn = ipmi.get_repository_sdr if store == 'r' else ipmi.get_device_sdr
+            x = fn(1, rv)
+            return '%d:%s' % (x.next_id, lean.hexs(bytes(bytearray(x.data.array))))
+        g = ipmi.sdr_repository_entries() if store == 'r' else ipmi.device_sdr_entries()
+        return ';'.join(lean.hexs(bytes(bytearray(x.data.array))) for x in g) or '-'
+    tag, val = dev11.outcome_of(op)
+    if tag == 'ok':
+        tag = 'ok=%s' % val
+    return tag, s.trace
+
+
+def probe_stale_variant():
+    """True = as shipped: after a renewal the next chunk is requested with the cancelled id again."""
+    seen = set()
+    for h in SDR_HELPERS:
+        _, trace = run_sdr(h, None, ('C', 'R'), 'C')
+        # r1 g(header) g(chunk: C5h) r2 g(chunk repeated with 2) | what the requests after that carry
+        if len(trace) < 6 or trace[3] != 'r2':
+            return None
+        seen.update(int(e[1:].split(':')[0]) != 2 for e in trace[5:] if e[0] == 'g')
+    return seen.pop() if len(seen) == 1 else None
+
+
 def runner(helper, budget, rv):
+    if helper in SDR_HELPERS:
+        return lambda p, t: run_sdr(helper, rv, p, t)
     if helper == 'chunk':
         return lambda p, t: run_chunk(budget, rv, p, t)
     if helper == 'clear':
@@ -192,8 +284,15 @@ def runner(helper, budget, rv):
     return lambda p, t: run_glue(helper, budget, p, t)
 
 
-def model_line(helper, budget, rv, letters, tail, send_variant):
+def model_line(helper, budget, rv, letters, tail, send_variant, stale_variant=True):
     ls = ','.join(letters) or '-'
+    if helper in SDR_HELPERS:
+        kind, store = helper.split(':')
+        recs = ','.join(lean.hexs(r) for r in SDR_RECS)
+        st = 1 if stale_variant else 0
+        if kind == 'data':
+            return 'data %s %d 1 %s %d %s %s %s' % (store, st, '-' if rv is None else rv, rv or 0, recs, ls, tail)
+        return 'dlist %s %d %d %d %s %s %s' % (store, st, len(SDR_RECS) + 1, 0, recs, ls, tail)
     if helper == 'chunk':
         return 'chunk %d %d %s %s' % (budget, rv, ls, tail)
     if helper == 'send':
@@ -219,8 +318,61 @@ def _events(trace):
     return out
 
 
+def oracle_sdr(helper, rv, tag, trace):
+    """Record-chunk fetching above the chunk helper, judged on the exchanges the scripted device saw."""
+    bad = []
+    kind, store = helper.split(':')
+    name = {'data:r': 'get_repository_sdr', 'data:d': 'get_device_sdr', 'list:r': 'sdr_repository_entries',
+            'list:d': 'device_sdr_entries'}[helper]
+    if tag.startswith('py:Hang'):
+        bad.append(('unbounded:%s' % name, '%s does not stop (call guard hit)' % name))
+    elif not tag.startswith('ok=') and tag != 'RetryError' and not tag.startswith('CompletionCodeError:'):
+        bad.append(('other-exception:%s' % name, '%s ends with %s' % (name, tag)))
+    limit = SDR_BOUND if kind == 'data' else 1 + (SDR_BOUND - 1) * len(SDR_RECS)
+    if len(trace) > limit:
+        bad.append(('unbounded:%s' % name, '%s made %d requests (bound %d)' % (name, len(trace), limit)))
+    if any(e[0] in 'wh?' for e in trace):
+        bad.append(('data_helper:request-to-other-store', '%s sent %s' % (
+            name, [e for e in trace if e[0] in 'wh?'][0])))
+    # most recently obtained reservation: every Get carries the id of the last Reserve (the caller's before the first)
+    held, renewed_in, nrec, prev_off = rv, None, 0, None
+    gets = []
+    for i, e in enumerate(trace):
+        if e[0] == 'r':
+            held = int(e[1:])
+            if i > 0 and trace[i - 1][0] == 'g' and trace[i - 1].endswith(':197'):
+                renewed_in = nrec
+        elif e[0] == 'g':
+            res, rid, off, cnt, c = [int(x) for x in e[1:].split(':')]
+            if off == 0 and prev_off != 0:
+                nrec += 1               # the header read of the next record (both records have more than a header)
+            prev_off = off
+            gets.append((i, c))
+            if res != held:
+                where = 'entries' if renewed_in is not None and nrec != renewed_in else 'data_helper'
+                bad.append(('%s:stale-reservation-after-renewal' % where,
+                            '%s: request %d (Get record %d offset %d) carries reservation %d while the most recently obtained '
+                            'one is %s%s' % (name, i, rid, off, res, held, '' if renewed_in is None else
+                                             ' (renewed during the read of record number %d, this is number %d)' % (renewed_in, nrec))))
+                break
+    # unexpected completion codes propagate (0xC5 / 0xC3 / 0xCE are retried, 0xCA shrinks the request)
+    for i, c in gets:
+        if c not in (0x00, 0xC5, 0xC3, 0xCE, 0xCA):
+            if tag != 'CompletionCodeError:%d' % c or i != len(trace) - 1:
+                bad.append(('code-not-propagated:%s' % name, '%s got completion code 0x%02x at request %d of %d and ended with %s' % (
+                    name, c, i, len(trace), tag)))
+            break
+    if tag.startswith('ok='):
+        want = '%d:%s' % (dev11.rec_id(RECQ), lean.hexs(RECP)) if kind == 'data' else ';'.join(lean.hexs(r) for r in SDR_RECS)
+        if tag[3:] != want:
+            bad.append(('data_helper:wrong-data', '%s returned %s, the device holds %s' % (name, tag[3:][:80], want[:80])))
+    return bad
+
+
 def oracle(helper, budget, rv, tag, trace):
     """-> list of (signature-suffix, what)."""
+    if helper in SDR_HELPERS:
+        return oracle_sdr(helper, rv, tag, trace)
     bad = []
     ev = _events(trace)
     name = {'chunk': 'get_sdr_chunk_helper', 'clear': 'clear_repository_helper', 'send': 'send_message'}.get(helper, helper)
@@ -297,7 +449,8 @@ def oracle(helper, budget, rv, tag, trace):
 
 
 # ---------------------------------------------------------------------------------------
-def explore(run_fn, depth):
+def explore(run_fn, depth, alphabet=None):
+    alphabet = alphabet or ALPHABET
     stack = [()]
     while stack:
         p = stack.pop()
@@ -305,10 +458,10 @@ def explore(run_fn, depth):
             res = run_fn(p, None)
         except dev11.NeedMore:
             if len(p) < depth:
-                for l in reversed(ALPHABET):
+                for l in reversed(alphabet):
                     stack.append(p + (l,))
             else:
-                for t in ALPHABET:
+                for t in alphabet:
                     yield p, t, run_fn(p, t)
             continue
         yield p, None, res
@@ -347,15 +500,15 @@ class _Found(object):
             ctx.violate('C13:' + sig, what, case, expected=expected, observed=observed)
 
 
-def _check_batch(ctx, drv, batch, send_variant, found):
-    lines = [model_line(h, b, rv, p, t or 'C', send_variant) for (h, b, rv, p, t, _) in batch]
+def _check_batch(ctx, drv, batch, send_variant, found, stale_variant=True):
+    lines = [model_line(h, b, rv, p, t or 'C', send_variant, stale_variant) for (h, b, rv, p, t, _) in batch]
     models = drv.ask_many(lines) if drv is not None else [None] * len(lines)
     for (h, b, rv, p, t, (tag, trace)), m in zip(batch, models):
         case = {'helper': h, 'budget': b, 'reservation': rv, 'script': list(p), 'tail': t}
         ctx.case((h, b, rv, p, t), nontrivial=len(trace) > 0)
         ctx.count('helper:' + h)
         ctx.count('outcome:' + (tag.split(':')[0]))
-        ctx.count('consumed:%d' % sum(1 for e in trace if e[0] != 'r'))
+        ctx.count('consumed:%s' % (lambda n: n if n < 12 else '12+')(sum(1 for e in trace if e[0] != 'r')))
         code_s = '%s %s' % (tag, ','.join(trace) or '-')
         for sig, what in oracle(h, b, rv, tag, trace):
             found.add(sig, what, case, 'see property clause', code_s)
@@ -380,6 +533,15 @@ def run(ctx):
         ctx.extra['send_message_variant'] = 'asShipped' if send_variant else 'intended'
         if _gen is not None and _gen['retryAnyCode'] != send_variant:
             ctx.disagree('send_message variant: source reading vs behaviour', {}, _gen['retryAnyCode'], send_variant)
+        stale_variant = probe_stale_variant()
+        ctx.extra['renewed_reservation_variant'] = {
+            'probed_on_real_code': {True: 'dropped (as shipped)', False: 'handed on (intended)', None: 'inconsistent'}[stale_variant],
+            'read_from_source': None if _gen is None else ('dropped' if _gen['staleRes'] else 'handed on')}
+        if stale_variant is None:
+            ctx.disagree('renewed reservation id: handed on in some operations only', {}, 'all or none', 'mixed')
+            stale_variant = _gen['staleRes'] if _gen is not None else True
+        elif _gen is not None and _gen['staleRes'] != stale_variant:
+            ctx.disagree('renewed reservation variant: source reading vs behaviour', {}, _gen['staleRes'], stale_variant)
         depth = 5 if ctx.tier == 'quick' else 8
         glue_depth = 3 if ctx.tier == 'quick' else 5
         plans = []
@@ -390,14 +552,19 @@ def run(ctx):
             plans.append(('send', b, None, depth))
             plans.append(('clear_sel', b, None, glue_depth))
             plans.append(('clear_sdr_repository', b, None, glue_depth))
+        sdr_depth = 4 if ctx.tier == 'quick' else 6
+        for h in SDR_HELPERS:
+            plans.append((h, 5, None, sdr_depth))
+            if h.startswith('data'):
+                plans.append((h, 5, 700, sdr_depth - 1))
         for h, b, rv, d in plans:
             batch = []
-            for p, t, res in explore(runner(h, b, rv), d):
+            for p, t, res in explore(runner(h, b, rv), d, ALPHABET_SDR if h in SDR_HELPERS else None):
                 batch.append((h, b, rv, p, t, res))
                 if len(batch) >= 4000:
-                    _check_batch(ctx, drv, batch, send_variant, found)
+                    _check_batch(ctx, drv, batch, send_variant, found, stale_variant)
                     batch = []
-            _check_batch(ctx, drv, batch, send_variant, found)
+            _check_batch(ctx, drv, batch, send_variant, found, stale_variant)
             if ctx.time_left() < 20:
                 ctx.notes.append('time budget reached during exhaustive exploration at %s budget %d' % (h, b))
                 break
@@ -420,6 +587,19 @@ def run(ctx):
             batch.append((h, b, rv, tuple(letters), t, runner(h, b, rv)(tuple(letters), t)))
             ctx.count('random')
         _check_batch(ctx, drv, batch, send_variant, found)
+        # ... and for record-chunk fetching above the chunk helper: mostly completed / cancelled / 0xCA, a few others
+        batch = []
+        for _ in range(n // 3):
+            h = rng.choice(SDR_HELPERS)
+            rv = rng.choice([None, None, rng.randrange(1, 0xFFF0)]) if h.startswith('data') else None
+            letters = []
+            for _i in range(rng.randrange(0, 24)):
+                l = rng.choice('CCCCCCPRRRTUAAO')
+                letters.append({'A': 'O202', 'O': 'O%d' % rng.choice([0xC0, 0xC1, 0xC9, 0xCB, 0xFF, 0x80])}.get(l, l))
+            t = rng.choice(['C', 'C', 'C', 'P', 'R', 'T', 'O202'])
+            batch.append((h, 5, rv, tuple(letters), t, runner(h, 5, rv)(tuple(letters), t)))
+            ctx.count('random-sdr')
+        _check_batch(ctx, drv, batch, send_variant, found, stale_variant)
     found.flush(ctx)
 
 
@@ -446,5 +626,7 @@ def replay(ctx, v):
     bad = oracle(h, b, rv, tag, trace)
     for sig, what in bad:
         print('  property: ' + what)
+    if h in SDR_HELPERS:
+        print('  (r<id> = Reserve answered with <id>; g<reservation>:<record>:<offset>:<count>:<completion code> = Get (Device) SDR)')
     want = v['signature'][len('C13:'):]
     return any(sig == want for sig, _ in bad)
